@@ -24,9 +24,21 @@ type recDesc struct {
 
 func (r recDesc) line() string { return "type=" + r.Type + " " + hdrT + r.Body }
 
-type tagger struct{ n int }
+// tagger hands out unique values: textual tags (v17q) or, in numeric mode, unique
+// 7-digit numbers - ids, pids and inodes are numbers in real logs and numeric values take
+// other paths (ECS id vs name, lookups).
+type tagger struct {
+	n       int
+	numeric bool
+}
 
-func (t *tagger) v() string { t.n++; return fmt.Sprintf("v%dq", t.n) }
+func (t *tagger) v() string {
+	t.n++
+	if t.numeric {
+		return fmt.Sprintf("%d", 7100000+t.n)
+	}
+	return fmt.Sprintf("v%dq", t.n)
+}
 
 func syscallRec(t *tagger, nr int, extraKey string) recDesc {
 	b := fmt.Sprintf("arch=c000003e syscall=%d success=yes exit=0 a0=%s a1=%s a2=%s a3=%s items=2 ppid=%s pid=%s auid=%s uid=%s gid=%s euid=%s suid=%s fsuid=%s egid=%s sgid=%s fsgid=%s tty=%s ses=%s comm=\"%s\" exe=\"/bin/%s\" subj=%s:%s:%s:s0 key=\"%s\"",
@@ -264,7 +276,7 @@ func c09Groups(c *enumx.Ctx) {
 						if !c.Mine() {
 							continue
 						}
-						t := &tagger{}
+						t := &tagger{numeric: (pos+si+nr)%2 == 1}
 						extra := ""
 						if collide == "foo" {
 							extra = "foo"
@@ -355,7 +367,7 @@ func c09Singles(c *enumx.Ctx) {
 		if !c.Mine() {
 			continue
 		}
-		t := &tagger{}
+		t := &tagger{numeric: typ%2 == 1}
 		name := auparse.AuditMessageType(typ).String()
 		var r recDesc
 		switch typ {
